@@ -9,6 +9,7 @@ broadcast use auto::psc_auto;
 //@module basic_option props=C01,C02,C03,C07,C08,C11,C14
 impl<T: Encode> Encode for Option<T> {
     open spec fn spec_enc(&self) -> Seq<u8> { match self { Some(t) => seq![1u8] + t.spec_enc(), None => seq![0u8] } }
+    open spec fn enc_ok(&self) -> bool { match self { Some(t) => t.enc_ok(), None => true } }
     #[verifier::external_body]
     fn size_hint(&self) -> usize { 0 }
     //@fn option.encode_to :: codec | impl<T:Encode>Encode for Option<T> | encode_to
@@ -36,6 +37,7 @@ broadcast use auto::psc_auto;
 //@module basic_result props=C01,C02,C03,C07,C08,C11,C14
 impl<T: Encode, E: Encode> Encode for Result<T, E> {
     open spec fn spec_enc(&self) -> Seq<u8> { match self { Ok(t) => seq![0u8] + t.spec_enc(), Err(e) => seq![1u8] + e.spec_enc() } }
+    open spec fn enc_ok(&self) -> bool { match self { Ok(t) => t.enc_ok(), Err(e) => e.enc_ok() } }
     #[verifier::external_body]
     fn size_hint(&self) -> usize { 0 }
     //@fn result.encode_to :: codec | impl<T:Encode,E:Encode>Encode for Result<T,E> | encode_to
@@ -66,6 +68,7 @@ broadcast use auto::psc_auto;
 //@item codec | struct | OptionBool
 impl Encode for OptionBool {
     open spec fn spec_enc(&self) -> Seq<u8> { match self.0 { None => seq![0u8], Some(true) => seq![1u8], Some(false) => seq![2u8] } }
+    open spec fn enc_ok(&self) -> bool { true }
     #[verifier::external_body]
     fn size_hint(&self) -> usize { 1 }
     //@fn optionbool.using_encoded :: codec | impl Encode for OptionBool | using_encoded
@@ -86,6 +89,7 @@ broadcast use auto::psc_auto;
 //@module basic_unit props=C01,C02,C03,C07,C08,C14
 impl Encode for () {
     open spec fn spec_enc(&self) -> Seq<u8> { Seq::<u8>::empty() }
+    open spec fn enc_ok(&self) -> bool { true }
     //@fn unit.encode_to :: codec | impl Encode for () | encode_to
     //@ at start
     //@+ proof { broadcast use sl::concat_empty_r; }
@@ -103,6 +107,7 @@ impl Decode for () {
 }
 impl<T> Encode for PhantomData<T> {
     open spec fn spec_enc(&self) -> Seq<u8> { Seq::<u8>::empty() }
+    open spec fn enc_ok(&self) -> bool { true }
     //@fn phantom.encode_to :: codec | impl<T>Encode for PhantomData<T> | encode_to
     //@ at start
     //@+ proof { broadcast use sl::concat_empty_r; }
@@ -125,6 +130,7 @@ broadcast use auto::psc_auto;
 //@module nonzero_$T props=C01,C02,C03,C07,C08,C14
 impl Encode for $NZ {
     open spec fn spec_enc(&self) -> Seq<u8> { le($VAL(self.get()), $N) }
+    open spec fn enc_ok(&self) -> bool { true }
     #[verifier::external_body]
     fn size_hint(&self) -> usize { $N }
     //@fn nonzero.$T.encode_to :: codec | impl Encode for $NZ | encode_to
@@ -203,6 +209,7 @@ def tuple_template(k):
                 '} // mod lem']
     out += ['impl<%s> Encode for %s {' % (', '.join('%s: Encode' % x for x in L), ty),
             '    open spec fn spec_enc(&self) -> Seq<u8> { %s }' % enc_spec,
+            '    open spec fn enc_ok(&self) -> bool { %s }' % ' && '.join('self.%d.enc_ok()' % i for i in range(k)),
             '    #[verifier::external_body]', '    fn size_hint(&self) -> usize { 0 }',
             '    //@fn tuple%d.encode_to :: codec::inner_tuple_impl | %s | encode_to' % (k, enc_hdr),
             '    //@ subre `\\bT\\b` `W` R2']
